@@ -131,6 +131,16 @@ def run(ctx):
                           "script": [{"op": "adopt", "p": "h1"}, {"op": "adopt", "p": "c1"}, {"op": "accept"}, {"op": "wait_running"}, {"op": "wait_start", "p": "h1"}, {"op": "wait_start", "p": "c1"},
                                      {"op": "adopt", "p": "late", "ctx": own + ":h1"}, {"op": "wait_start", "p": "late"}, {"op": "step", "p": "late"}, {"op": "adopt", "p": "late2", "ctx": own + ":h1"}, {"op": "wait_start", "p": "late2"}, {"op": "step", "p": "c1"}, {"op": "polls", "n": 2}],
                           "shape": "targeted-adopt-from-private-" + ("asyncio" if own == "ownloop" else "trio") + "-loop"})
+    # a coroutine payload is busy between two checkpoints; meanwhile an outside thread adopts a
+    # payload of the same flavour (it may have to wait for the busy one), then the busy payload
+    # itself adopts: every adopt returns, everything is started
+    for f in ("trio", "asyncio"):
+        for late2 in scen.FLAVS:
+            extra.append({"seed": ctx.seed, "jitter": 0.0, "payloads": {"c1": {"flavour": f}, "late": {"flavour": f, "args": [1]}, "late2": {"flavour": late2}, "late3": {"flavour": f}},
+                          "script": [{"op": "adopt", "p": "c1"}, {"op": "accept"}, {"op": "wait_running"}, {"op": "wait_start", "p": "c1"},
+                                     {"op": "seg", "p": "c1", "hold": 0.5, "adopt_after": "late2", "nowait": True}, {"op": "sleep", "ms": 150}, {"op": "adopt", "p": "late", "ctx": "thread"},
+                                     {"op": "sleep", "ms": 500}, {"op": "wait_start", "p": "late"}, {"op": "wait_start", "p": "late2"}, {"op": "adopt", "p": "late3", "ctx": "payload:c1"}, {"op": "wait_start", "p": "late3"},
+                                     {"op": "step", "p": "c1"}, {"op": "polls", "n": 2}], "shape": "targeted-outside-adopt-while-busy"})
     # a burst of adoptions from inside one synchronous step of a coroutine payload (nothing
     # can drain a hand-over buffer meanwhile): "for all numbers of payloads"
     for f, n in (("trio", 270), ("asyncio", 60)):
